@@ -25,7 +25,7 @@ From PushModel Require Import Base.Sx Base.Machine Base.ListOps Base.F32 Base.F3
   Model.Item Model.GraphT Model.State Model.InstrBase Model.Registry Model.Interp Model.RandomGen
   Model.IRand Model.IVector Model.RegistryAll Model.Topology
   Spec.RandSpec Spec.TopoSpec Proofs.RandVec Proofs.NoPanicBase Proofs.NoPanicRand Proofs.NoPanic
-  Proofs.VecProofs Proofs.TopoNbr
+  Proofs.VecProofs Proofs.SortStable Proofs.TopoNbr
   Suites.SNoPanicFloat Proofs.FlocqFactsNbits Proofs.FlocqFactsInt Proofs.FlocqFactsSort
   Props.C01 Props.C09 Props.C13 Props.C20.
 Import ListNotations.
@@ -233,6 +233,26 @@ Proof.
 Qed.
 Print Assumptions FF_C09_sort_spec_flocq.
 
+(* ... stably (0.0 and -0.0, and all NaN, keep their relative order; SORT*DESC reverses it), and
+   no other vector meets the contract of a stable sort (Proofs/SortStable.v) *)
+Theorem FF_C09_sort_is_stable_flocq : forall tab : table,
+  sorts_stably st_fvec set_fvec (@fle_nan_last (flocq_ops tab))
+               (@fvec_sort_asc (flocq_ops tab)) (@fvec_sort_desc (flocq_ops tab)).
+Proof.
+  exact (fun tab => proj2 (proj2 (C09_sort_is_stable (flocq_ops tab)))
+                      (flocq_fle_nan_last_total tab) (flocq_fle_nan_last_trans tab)).
+Qed.
+Print Assumptions FF_C09_sort_is_stable_flocq.
+
+Theorem FF_C09_stable_sort_unique_flocq : forall tab : table,
+  sort_result_unique st_fvec set_fvec (@fle_nan_last (flocq_ops tab))
+                     (@fvec_sort_asc (flocq_ops tab)) (@fvec_sort_desc (flocq_ops tab)).
+Proof.
+  exact (fun tab => proj2 (proj2 (C09_stable_sort_unique (flocq_ops tab)))
+                      (flocq_fle_nan_last_total tab) (flocq_fle_nan_last_trans tab)).
+Qed.
+Print Assumptions FF_C09_stable_sort_unique_flocq.
+
 (* ---- C20 ---- *)
 (* Release build (the squares are computed as d * d): every table *)
 Theorem FF_C20_nbr_is_geometric_set_flocq : forall (tab : table) ntotal ndim index r,
@@ -302,4 +322,17 @@ Example FF_nonvacuous :
   @nbits (flocq_ops []) 7 f_half = 3 /\
   @within (flocq_ops []) 16 (@f_of_usize (flocq_ops []) 4) = true /\
   @fle_nan_last (flocq_ops []) f_one f_nan = true /\ @fle_nan_last (flocq_ops []) f_nan f_one = false.
+Proof. vm_compute. repeat split. Qed.
+
+(* stability is visible on floats: 0.0 (bits 0) and -0.0 (bits 0x80000000) compare equal and are
+   different items; ascending they stay in their order, descending the order is reversed *)
+Example FF_nonvacuous_sort_stable :
+  let nz := 2147483648 in
+  eqv (@fle_nan_last (flocq_ops [])) 0 nz = true /\
+  @fvec_sort_asc (flocq_ops []) (set_fvec empty_state [[f_one; nz; 0; nz]])
+    = Ok (set_fvec empty_state [[nz; 0; nz; f_one]]) /\
+  @fvec_sort_asc (flocq_ops []) (set_fvec empty_state [[f_one; 0; nz; nz]])
+    = Ok (set_fvec empty_state [[0; nz; nz; f_one]]) /\
+  @fvec_sort_desc (flocq_ops []) (set_fvec empty_state [[f_one; 0; nz; nz]])
+    = Ok (set_fvec empty_state [[f_one; nz; nz; 0]]).
 Proof. vm_compute. repeat split. Qed.
